@@ -4,6 +4,7 @@
 //verif:assume bundle ids are ksuids: later uploads get larger ids when they start in a later second (the library's contract; the model clock advances on every reading, the native replay waits for the next second)
 //verif:assume history: repository r with one committed bundle (file a, or no file at all) carrying label v1, uploaded through the real code; the interrupted operation is the upload of a second bundle (files a - same content - and b; one entry per index file, or three so that the list goes out in the final partial flush)
 //verif:cover VerifC06CommitCrash commit-interrupted
+//verif:cover VerifC06LabelCrash label-write-lost label-write-landed
 //verif:assume index packer unit: the real fileIndex.Upload (pack, uploadIndex, writeMetadata) with 2 entries per index file (the field is set by the harness; 1000 in production), 0..5 entries, and a transient fault at a solver-chosen index-file write
 //verif:cover VerifC06PackFaults full-list-write-failed final-list-write-failed no-fault
 //verif:cover VerifC06UploadCrash crashed-before-descriptor crashed-between-index-files completed descriptor-landed-then-crash transient-fault final-partial-list old-bundle-empty
@@ -317,4 +318,48 @@ func VerifC06PackFaults() {
 		}
 	}
 	vAssert(k == n, "entries-in-order-none-lost")
+}
+
+// VerifC06LabelCrash: re-assigning a label dies at its store write (landed or not), or meets a transient fault:
+// the label keeps resolving - to the old bundle or to the new one, never to something else - and a label set that
+// reports success has taken effect; bundles are untouched.
+func VerifC06LabelCrash() {
+	vBudget(100000000)
+	meta, vmeta := newVStore("meta"), newVStore("vmeta")
+	stores := vCtxStoresKind(meta, vmeta, newVStore("blob"), vChoose("storeWithCRC", 2) == 1)
+	ctx := context.Background()
+	vPutRepo(meta, "r")
+	vPutBundle(meta, "r", vB1, 1, true)
+	vPutBundle(meta, "r", vB2, 1, true)
+	set := func(bundle string) error {
+		lab := NewLabel(LabelDescriptor(model.NewLabelDescriptor(model.LabelName("v1"), model.LabelContributor(model.Contributor{Name: "n", Email: "e@x.io"}))))
+		return lab.UploadDescriptor(ctx, NewBundle(Repo("r"), ContextStores(stores), BundleID(bundle), Logger(zap.NewNop())))
+	}
+	vAssert(set(vB1) == nil, "label-set")
+	beforeM := vSnapshot(meta)
+	cr := &vCrasher{stores: []*vStore{meta, vmeta}}
+	cr.crashAt = vInt("crashAt", 1, 2)
+	switch vChoose("how", 3) {
+	case 1:
+		cr.landed = true
+	case 2:
+		cr.transient = true
+	}
+	cr.install()
+	err := set(vB2)
+	cr.revive()
+	vAssume(cr.crashed)
+	l2 := NewLabel(LabelDescriptor(model.NewLabelDescriptor(model.LabelName("v1"))))
+	gerr := l2.DownloadDescriptor(ctx, NewBundle(Repo("r"), ContextStores(stores), Logger(zap.NewNop())), true)
+	vAssert(gerr == nil, "label-still-resolves")
+	vAssert(l2.Descriptor.BundleID == vB1 || l2.Descriptor.BundleID == vB2, "label-names-the-old-or-the-new-bundle")
+	if l2.Descriptor.BundleID == vB1 {
+		vCover("label-write-lost")
+		vAssert(err != nil, "label-set-that-did-not-take-effect-reports-failure")
+	} else {
+		vCover("label-write-landed")
+	}
+	vAssertSame(beforeM, meta, []string{""}, "bundles-untouched-by-a-label-set")
+	got, lerr := ListLabels("r", stores)
+	vAssert(lerr == nil && len(got) == 1, "label-listed-once")
 }
